@@ -75,11 +75,11 @@ ASSUMPTIONS = [
     "random augmentations have probability 0 (they draw from SystemRandom); ESPIRiT maps excluded (opaque, slow)",
     "exact correspondence: identity forward/backward operators, one non-zero coil per pixel, values ±2^k on an axis, "
     "so that every square root, mean and division is exact in float32",
-    "oracle samples have no coil whose entries sum to exactly zero (then scale_percentile raises IndexError: modelled by runE, "
-    "compared exactly in the correspondence, excluded from the oracle's random data)",
+    "an identically zero scaling tensor with scale_percentile raises IndexError (torch.kthvalue on an empty tensor): modelled by "
+    "runE and compared exactly in the correspondence; the oracle's random data is never identically zero after masking",
     "a tuple crop is not combined with pad/rescale (CreateSamplingMask would build the mask for the crop shape)",
-    "PadKspace / RescaleKspace / CompressCoil are outside the property's quantifier: bit-exact invariance under 2^k is still "
-    "checked; arbitrary scales exclude the outputs that are decided by rounding noise there (see the evidence notes)",
+    "with PadKspace the sensitivity map (and a SENSE target) in zero-padded image rows is normalised FFT rounding noise: "
+    "excluded from the arbitrary-scale comparison there (bit-exact invariance under 2^k is still required)",
     "use_seed=False is exercised with a wrapper that substitutes a fixed seed for None (the mask function re-seeds from the OS)",
 ]
 RULE = ("cases: static verdict vs. observed equivariance on random flag combinations; every stage module and whole "
@@ -514,7 +514,7 @@ def _stage_set(rng):
         # ComputeScalingFactor (percentile / max; key kspace / masked_kspace)
         for sk, use_pct in ((0, True), (1, False), (1, True)):
             src = masked if sk == 0 else kt
-            nz = int((src.reshape(nc, -1).sum(1) != 0).sum())
+            nz = int((src.reshape(nc, -1) != 0).any(1).sum())          # coils with a non-zero entry (the repaired test)
             kk = int((1 - pct) * (nz * npix)) + 1
             if nz == 0 and use_pct:
                 continue
@@ -872,41 +872,6 @@ def observations() -> list[dict]:
             "is aligned with the coil axis: an error, or a silent mis-broadcast when batch size == number of coils",
             "build_mri_transforms(fft2, ifft2, mask, crop=(6, 4), padding_eps=0, delete_acs_mask=False)({'kspace': (2, 3, 8, 6) complex64, ...})",
             rank_of_3d_masks)
-    def coil_test_by_noise():
-        fl = {**default_flags(), "crop": 2, "pad": 1, "estimate_smaps": 0, "delete_acs": 0, "delete_kspace": 0, "recon": 0}
-        kk_ = _gauss_sample(378735690, 2, 0, 6, 7, 0, False)
-        res = []
-        for sc in (1.0, 7.48340206185567):
-            tr = build_real(fl, _mask_func(3, 0.15), *_ops(False), crop_shape=(5, 4), pad_shape=(7, 8), percentile=0.9)
-            o = run_real(tr, raw_sample((kk_ * np.float32(sc)).astype(np.complex64), crop_shape=(5, 4)))
-            res.append((float(o["scaling_factor"]), [float(v) for v in o["masked_kspace"].reshape(2, -1).sum(1)]))
-        (s0, c0), (s1, c1) = res
-        if abs(s1 / s0 / 7.48340206185567 - 1) > 1e-3:
-            raise RuntimeError(f"scaling_factor {s0:.6f} -> {s1:.6f} under scale 7.4834 (expected {s0 * 7.48340206185567:.6f}); per-coil sums of "
-                               f"the masked k-space: {c0} vs {c1}")
-    def crash_by_noise():
-        fl = {**default_flags(), "pad": 1, "estimate_smaps": 0, "delete_kspace": 0, "recon": 3, "scaling_key": 1}
-        tr = build_real(fl, _mask_func(), *_ops(False), pad_shape=(11, 11), percentile=0.9)
-        run_real(tr, raw_sample(_gauss_sample(1612761905, 1, 0, 8, 10, 0, False)))
-    attempt("... and for single-coil data the same noise makes the pipeline *raise* on an ordinary sample: the only coil is "
-            "dropped when its noise sum is exactly 0.0 and torch.kthvalue is called on an empty tensor",
-            "build_mri_transforms(fft2 uncentred, ifft2 uncentred, mask, pad=(11, 11), scale_percentile=0.9, scaling_key='kspace', "
-            "estimate_sensitivity_maps=False, image_recon_type='complex_mod', delete_kspace=False) on RandomState(1612761905) randn (1, 8, 10)",
-            crash_by_noise)
-    attempt("ComputeScalingFactor decides which coils are 'not padded' by `data[_].sum(...).bool()`.  With PadKspace and un-centred "
-            "FFT operators that sum is theoretically zero (the zero-padded image row 0), so the test is decided by float32 rounding "
-            "noise: under a non-dyadic scale a coil whose noise happens to be exactly 0.0 is dropped from the percentile and the "
-            "scaling factor (and every normalised output) jumps by ~10 %.  Minimal repair: test `(data[_] != 0).flatten(1).any(1)`",
-            "build_mri_transforms(fft2 uncentred, ifft2 uncentred, FastMRIRandom(3, 0.15), crop='reconstruction_size' (5, 4), pad=(7, 8), "
-            "scale_percentile=0.9, estimate_sensitivity_maps=False, image_recon_type='ifft') on RandomState(378735690) randn (2, 6, 7) vs 7.4834x",
-            coil_test_by_noise)
-    zc = np.zeros((1, 4, 4), dtype=np.complex64)
-    zc[0, :, 2] = [3, -3, 4j, -4j]
-    attempt("ComputeScalingFactor's percentile branch tests `data[_].sum(...).bool()` to find non-padded coils: a coil whose entries "
-            "cancel to an exactly zero sum is dropped, and when no coil is left torch.kthvalue raises IndexError although the k-space "
-            "is not zero (modelled: `runE`, theorem runE_equivariant; the error is scale-invariant)",
-            "build_mri_transforms(ident, ident, fully-sampled mask, padding_eps=0)({'kspace': one coil, one column [3, -3, 4j, -4j], ...})",
-            lambda: run_real(build_real({**default_flags(), "padding_eps": 0}, mask_func_of("full"), _ident, _ident), raw_sample(zc)))
     return out
 
 
@@ -1041,6 +1006,19 @@ def _oracle(ctx: Ctx, deep: bool = False):
                "pad_to": 5}
         ctx.count(("given", scen, tuple(flag_list(f)), cfg["seed"], tuple(cfg["shape"])), True, bucket="oracle/given/" + scen)
         yield from _guarded(check_given(cfg), {"op": "given", **cfg})
+    # (xi) the coil selection of the percentile scaling (repaired finding, `fixed:` — quiet now): the two recorded repros and
+    #      random instances of the three situations
+    fixed_cs = [{"case": "pad-uncentred-single-coil", "seed": 1612761905, "shape": [8, 10], "pad_shape": [11, 11], "scaling_key": 1},
+                {"case": "pad-uncentred-two-coils", "seed": 378735690, "shape": [6, 7], "pad_shape": [7, 8], "scaling_key": 0},
+                {"case": "recorded-two-coils", "seed": 378735690},
+                {"case": "cancelling-coil", "seed": 1, "coils": 1, "scaling_key": 0}, {"case": "cancelling-coil", "seed": 2, "coils": 3, "scaling_key": 1}]
+    for i in range(ctx.budget(6, 60) * (3 if deep else 1)):
+        h, w = rng.choice([6, 8, 9]), rng.choice([7, 8, 10])
+        fixed_cs.append({"case": COIL_SELECTION_CASES[1 + i % 2], "seed": rng.randrange(2 ** 31), "shape": [h, w],
+                         "pad_shape": [h + rng.choice([1, 2, 3]), w + rng.choice([0, 1, 3])], "scaling_key": rng.choice([0, 1])})
+    for cfg in fixed_cs:
+        ctx.count(("coil-selection", cfg["case"], cfg["seed"], tuple(cfg.get("shape", ()))), True, bucket="oracle/coil-selection/" + cfg["case"])
+        yield from _guarded(check_coil_selection(cfg), {"op": "coil_selection", **cfg})
     # (i') extreme power-of-two scales (k-space magnitudes far below float32 eps / far above 1): nothing in the pipeline
     #      may compare against an absolute constant (a clamp of the scaling factor, an absolute threshold, ...)
     for sk, pct, ssl in itertools.product((0, 1), (0, 1), (0, 1)):
@@ -1158,15 +1136,9 @@ def check_config(cfg, k: np.ndarray):
         return run_real(tr, smp)
 
     rep = {"op": "pipeline", **cfg}
-    # PadKspace with un-centred operators: the per-coil sums that ComputeScalingFactor's percentile branch tests are rounding
-    # noise (see below); a coil — for single-coil data: every coil, then torch.kthvalue raises — is dropped whenever the noise is
-    # exactly 0.0.  Recorded observation (PadKspace is outside the property's quantifier), not judged here.
-    noise_decided = bool(f["pad"] and f["percentile"] and not cfg.get("centered", True))
     try:
         base = run(1.0)
     except Exception as e:  # noqa: BLE001
-        if noise_decided and "kthvalue" in str(e):
-            return
         yield Violation("pipeline-raises", f"the composed transform raises {err_name(e)}: {e}", {**rep, "observed": repr(e)})
         return
     # (v) finiteness
@@ -1183,8 +1155,7 @@ def check_config(cfg, k: np.ndarray):
         try:
             o = run(sc)
         except Exception as e:  # noqa: BLE001
-            if not (noise_decided and "kthvalue" in str(e)):
-                yield Violation("scaled-raises", f"the transform raises on the scaled input: {e}", {**rep, "scale": sc})
+            yield Violation("scaled-raises", f"the transform raises on the scaled input: {e}", {**rep, "scale": sc})
             continue
         for kk in NORMALISED:
             if (kk in base) != (kk in o):
@@ -1201,19 +1172,12 @@ def check_config(cfg, k: np.ndarray):
     try:
         o = run(sc)
     except Exception as e:  # noqa: BLE001
-        if not (noise_decided and "kthvalue" in str(e)):
-            yield Violation("scaled-raises", f"the transform raises on the scaled input: {e}", {**rep, "scale": sc})
+        yield Violation("scaled-raises", f"the transform raises on the scaled input: {e}", {**rep, "scale": sc})
         return
     # with PadKspace the zero-padded image rows carry only FFT rounding noise, which EstimateSensitivityMap normalises to unit
     # magnitude (the safe division guards exact zeros only): the map — and a SENSE target — is not stable under a
     # non-dyadic scale there (recorded observation); bit-exactness under 2^k is still required above
     unstable = {"sensitivity_map"} | ({"target"} if f["recon"] >= 4 else set()) if f["pad"] else set()
-    # with PadKspace and un-centred operators the per-coil sum of the k-space is *theoretically* zero (it is the zero-padded image
-    # row 0), so ComputeScalingFactor's `data[_].sum(...).bool()` test for non-padded coils is decided by rounding noise: a coil
-    # is dropped from the percentile whenever the noise is exactly 0.0, and the scaling factor jumps (recorded observation with a
-    # deterministic repro; PadKspace is outside the property's quantifier).  Dyadic scales are still compared bit-exactly.
-    if noise_decided:
-        unstable = set(NORMALISED)
     for kk in NORMALISED:
         if kk in unstable:
             continue
@@ -1222,7 +1186,7 @@ def check_config(cfg, k: np.ndarray):
                 yield Violation("equivariance-real-" + kk, f"`{kk}` changes under scaling by {sc}",
                                 {**rep, "scale": sc, "key": kk})
     s0, s1 = float(base["scaling_factor"]), float(o["scaling_factor"])
-    if not noise_decided and not abs(s1 - s0 * sc) <= 1e-4 * abs(s0 * sc):
+    if not abs(s1 - s0 * sc) <= 1e-4 * abs(s0 * sc):
         yield Violation("scaling-factor-real", f"scaling_factor {s0} -> {s1} under scale {sc}",
                         {**rep, "scale": sc, "expected": s0 * sc, "observed": s1})
     # (ii)/(iii) self-consistency, with the normalised fully sampled k-space kept in the sample
@@ -1737,6 +1701,80 @@ def check_defaults(cfg):
         yield Violation("scaling-factor-pow2", "default arguments: scaling_factor is not multiplied by 8", rep)
 
 
+COIL_SELECTION_CASES = ("cancelling-coil", "pad-uncentred-single-coil", "pad-uncentred-two-coils")
+
+
+def check_coil_selection(cfg):
+    """ComputeScalingFactor's percentile branch must select the coils that have a non-zero entry.  Repaired finding (`fixed:`):
+    the selection used to be `data[_].sum(...).bool()`, which drops a coil whose entries cancel and — with PadKspace and
+    un-centred operators, where that sum is theoretically zero — let float32 rounding noise decide (IndexError on ordinary
+    single-coil samples, a scaling factor off by 13 % under a non-dyadic scale)."""
+    case = cfg["case"]
+    rep = {"op": "coil_selection", **cfg}
+
+    def judge(make, k, scales, what):
+        try:
+            base = run_real(make(), raw_sample(k.copy()))
+        except Exception as e:  # noqa: BLE001
+            yield Violation("percentile-coil-selection/raises", f"{what}: the transform raises {e}", {**rep, "observed": str(e)})
+            return
+        s0 = float(base["scaling_factor"])
+        if not s0 > 0:
+            yield Violation("percentile-coil-selection/scaling-factor", f"{what}: scaling_factor {s0} for a non-zero k-space", rep)
+        for sc in scales:
+            try:
+                o = run_real(make(), raw_sample((k * np.float32(sc)).astype(np.complex64)))
+            except Exception as e:  # noqa: BLE001
+                yield Violation("percentile-coil-selection/raises", f"{what}: the transform raises on the input scaled by {sc}: {e}",
+                                {**rep, "scale": sc, "observed": str(e)})
+                continue
+            s1 = float(o["scaling_factor"])
+            if abs(s1 - s0 * sc) > 1e-4 * abs(s0 * sc):
+                yield Violation("percentile-coil-selection/scaling-factor",
+                                f"{what}: scaling_factor {s0} -> {s1} under scale {sc} (expected {s0 * sc})",
+                                {**rep, "scale": sc, "expected": s0 * sc, "observed": s1})
+            for kk in ("masked_kspace", "kspace"):
+                if kk in base and (kk not in o or not _close(base[kk], o[kk], 1e-4)):
+                    yield Violation("percentile-coil-selection/" + kk, f"{what}: `{kk}` changes under scaling by {sc}", {**rep, "scale": sc})
+
+    if case == "cancelling-coil":
+        # integer data, one coil, every sampled column cancels: [3, -3, 4i, -4i] per column (plus a second, ordinary coil or not)
+        nc = cfg.get("coils", 1)
+        k = np.zeros((nc, 4, 6), dtype=np.complex64)
+        k[0, :, :] = np.array([3, -3, 4j, -4j], dtype=np.complex64)[:, None]
+        if nc > 1:
+            k[1:] = _int_sample(cfg["seed"], nc - 1, 4, 6)
+        fl = {**default_flags(), "padding_eps": 0, "delete_kspace": 0, "scaling_key": cfg.get("scaling_key", 0)}
+        yield from judge(lambda: build_real(fl, mask_func_of("full"), _ident, _ident, percentile=0.9), k, (8.0, 0.37), "a coil whose entries cancel")
+    elif case == "recorded-two-coils":
+        # the recorded repro: scaling_factor 0.746866 -> 6.313450 under scale 7.4834 (expected 5.589099) on the pinned tree
+        k = _gauss_sample(378735690, 2, 0, 6, 7, 0, False)
+        fl = {**default_flags(), "crop": 2, "pad": 1, "estimate_smaps": 0, "delete_acs": 0, "delete_kspace": 0, "recon": 0}
+
+        def make():
+            return build_real(fl, _mask_func(3, 0.15), *_ops(False), crop_shape=(5, 4), pad_shape=(7, 8), percentile=0.9)
+
+        def judge_rs(scales):
+            base = run_real(make(), raw_sample(k.copy(), crop_shape=(5, 4)))
+            s0 = float(base["scaling_factor"])
+            for sc in scales:
+                o = run_real(make(), raw_sample((k * np.float32(sc)).astype(np.complex64), crop_shape=(5, 4)))
+                s1 = float(o["scaling_factor"])
+                if abs(s1 - s0 * sc) > 1e-4 * abs(s0 * sc):
+                    yield Violation("percentile-coil-selection/scaling-factor",
+                                    f"PadKspace with un-centred operators: scaling_factor {s0} -> {s1} under scale {sc} (expected {s0 * sc})",
+                                    {**rep, "scale": sc, "expected": s0 * sc, "observed": s1})
+        yield from judge_rs((7.48340206185567,))
+    else:
+        nc = 1 if case.endswith("single-coil") else 2
+        h, w = cfg["shape"]
+        k = _gauss_sample(cfg["seed"], nc, 0, h, w, 0, False)
+        fl = {**default_flags(), "pad": 1, "estimate_smaps": 0, "delete_kspace": 0, "recon": 3, "scaling_key": cfg.get("scaling_key", 1)}
+        pad = tuple(cfg["pad_shape"])
+        yield from judge(lambda: build_real(fl, _mask_func(), *_ops(False), pad_shape=pad, percentile=0.9), k,
+                         (7.48340206185567, 0.37, 3.0), "PadKspace with un-centred operators")
+
+
 def check_given(cfg):
     """The sample already contains (A) `sampling_mask` + `acs_mask` (no mask function) or (B) a `sensitivity_map`:
     scale-equivariance and self-consistency on the real pipeline."""
@@ -1813,6 +1851,9 @@ def replay(rep: dict) -> bool:
         if op == "defaults":
             cfg = {kk: rep[kk] for kk in ("family", "seed", "shape", "name")}
             return any(True for _ in check_defaults(cfg))
+        if op == "coil_selection":
+            cfg = {kk: rep[kk] for kk in ("case", "seed", "shape", "pad_shape", "scaling_key", "coils") if kk in rep}
+            return any(True for _ in check_coil_selection(cfg))
         if op == "given":
             cfg = {kk: rep[kk] for kk in ("flags", "scenario", "seed", "shape", "crop_shape", "centered", "percentile", "pad_to") if kk in rep}
             return any(True for _ in check_given(cfg))
